@@ -53,7 +53,7 @@ func body(sp, profile string, b string) *Case {
 var alphaHTML = []string{`<a `, `href=`, `"`, `>`, `<style>`, `url(`, `)`, `<script type=json>`, `{`, `=`, `</`,
 	`http://a.b/c.png`, `<img srcset=`, ` style=`, `<base `, ` data-item=`, `}`, `,`}
 var alphaScript = []string{`{`, `}`, `=`, `"`, `var a`, `http://a.b/c.js`, `:`, `é`, `[`, `]`, `,`, `\u00`}
-var alphaJSON = []string{`{`, `}`, `[`, `]`, `"`, `:`, `,`, `\`, `u`, `http://a.b/c`, `1`}
+var alphaJSON = []string{`{`, `}`, `[`, `]`, `"`, `:`, `,`, `\`, `u`, `http://a.b/c`, `1`, "     ", "\n"} // incl. whitespace runs at the length boundaries the extractors test
 var alphaTypedJSON = []string{`{`, `}`, `[`, `]`, `,`, `null`, `1`, `"x"`, `"data":`, `"children":`, `"permalink":`, `"id":`,
 	`"media_attachments":`, `"external_video_id":`, `"created_at":`, `"resourceUrl":`, `"embedUrl":`, `"credits":`}
 var alphaXML = []string{`<a>`, `</a>`, `<a `, `href="http://a.b/c"`, `>`, `/>`, `<![CDATA[`, `]]>`, `&amp;`, `&`, `<?xml version="1.0"?>`,
